@@ -216,17 +216,19 @@ pub struct Failing {
     pub hist_hash: String,
 }
 
-fn same_rule(mon: &MonOut, rule: &str) -> Option<Violation> {
-    mon.violations.iter().find(|v| v.rule == rule).cloned()
+fn same_rule(mon: &MonOut, rule: &str, site: &str) -> Option<Violation> {
+    // non-positional sites (e.g. a panic location) are part of the violation's identity
+    let positional = site.starts_with('L') || site.starts_with("x#") || site.starts_with("behaviour#");
+    mon.violations.iter().find(|v| v.rule == rule && (positional || v.site == site)).cloned()
 }
 
 /// Shrink the failing run: first make it self-contained ("every decision is 0 except these"),
 /// then delta-debug the set of non-zero decisions, keeping a candidate iff the same rule of
 /// the same monitor still fails.
-pub fn minimise(batch: &Batch, cfg: &RunCfg, rule: &str, budget: std::time::Duration) -> Option<Failing> {
+pub fn minimise(batch: &Batch, cfg: &RunCfg, rule: &str, site: &str, budget: std::time::Duration) -> Option<Failing> {
     let start = Instant::now();
     let (out, mon) = exec_in_thread(batch.exec, &batch.profile, cfg).ok()?;
-    let v0 = same_rule(&mon, rule)?;
+    let v0 = same_rule(&mon, rule, site)?;
     let mut best = Failing { cfg: cfg.clone(), violation: v0, decisions: out.decisions.clone(), hist_hash: history_hash(&out.hist) };
     // explicit form: default zero, overrides = every non-zero decision
     let mut explicit: BTreeMap<String, u64> = BTreeMap::new();
@@ -242,7 +244,7 @@ pub fn minimise(batch: &Batch, cfg: &RunCfg, rule: &str, budget: std::time::Dura
     let mut test = |c: &RunCfg, tries: &mut u32| -> Option<Failing> {
         *tries += 1;
         let (o, m) = exec_in_thread(batch.exec, &batch.profile, c).ok()?;
-        let v = same_rule(&m, rule)?;
+        let v = same_rule(&m, rule, site)?;
         Some(Failing { cfg: c.clone(), violation: v, decisions: o.decisions.clone(), hist_hash: history_hash(&o.hist) })
     };
     match test(&cand, &mut tries) {
@@ -300,9 +302,10 @@ pub fn minimise(batch: &Batch, cfg: &RunCfg, rule: &str, budget: std::time::Dura
     Some(best)
 }
 
-pub fn write_replay(dir: &str, prop: &str, base_seed: u64, batch: &Batch, idx: u64, f: &Failing, tier: &str) -> String {
+#[allow(clippy::too_many_arguments)]
+pub fn write_replay(dir: &str, prop: &str, base_seed: u64, batch: &Batch, idx: u64, f: &Failing, tier: &str, n: usize) -> String {
     let _ = std::fs::create_dir_all(dir);
-    let path = format!("{dir}/{prop}-{}-{}-{}.json", f.violation.rule.replace('.', "_"), base_seed, idx);
+    let path = format!("{dir}/{prop}-{}-{}-{}-{}.json", f.violation.rule.replace('.', "_"), base_seed, idx, n);
     let nonzero: Vec<Value> = f
         .decisions
         .iter()
